@@ -1,5 +1,7 @@
 # configuration of ./check C08 (see checklib/props.py)
 PROP = {'level': 'proof',
+ # a failing case is run again alone (twice) before it is believed: real sockets and timers on a shared machine
+ 'retry': True,
  # every candidate of the shrinker is a real network exchange: bound the search (./check reads these two keys)
  'shrink_rounds': 3, 'shrink_candidates': 20,
  # regenerated fact tied in Facts/TieC08.lean: the argument of time.NewTicker is c.Retry (1 holds / 2 unknown / 0 violated)
